@@ -41,3 +41,147 @@ Example C12_example :
   | Err _ => False
   end.
 Proof. vm_compute. repeat split; reflexivity. Qed.
+
+(* ------------------------------------------------------------------------------------------------------
+   Added in build session 4 (statements re-stated from the proof files by harness tooling; each is closed by
+   exact). *)
+From SplipyModel Require Import Proofs.ObjEval Proofs.IdenticalEndToEnd.
+Theorem C12_compatible_then_evaluate :
+  forall (tol : R) (o1 o2 : obj R) (ts : list R),
+         0 < tol ->
+         wf_obj_R tol o1 ->
+         wf_obj_R tol o2 ->
+         let ab := obj_compatible o1 o2 in
+         let dim' := Nat.max (o_dim o1) (o_dim o2) in
+         obj_eval tol (fst ab) ts = res_map (pad (dim' - o_dim o1)) (obj_eval tol o1 ts) /\
+         obj_eval tol (snd ab) ts = res_map (pad (dim' - o_dim o2)) (obj_eval tol o2 ts) /\
+         wf_obj_R tol (fst ab) /\
+         wf_obj_R tol (snd ab) /\
+         o_bases (fst ab) = o_bases o1 /\
+         o_bases (snd ab) = o_bases o2 /\
+         o_dim (fst ab) = dim' /\
+         o_dim (snd ab) = dim' /\ o_rat (fst ab) = o_rat o1 || o_rat o2 /\ o_rat (snd ab) = o_rat o1 || o_rat o2.
+Proof. exact @compatible_eval. Qed.
+Print Assumptions C12_compatible_then_evaluate.
+
+Theorem C12_identical_dir_knots :
+  forall (tol : R) (o1 o2 : obj R) (i : nat),
+         identical_hyps tol o1 o2 i ->
+         forall a b : obj R,
+         identical_dir tol o1 o2 i = Ok (a, b) ->
+         let ba := nth i (o_bases a) dflt_basis in
+         let bb := nth i (o_bases b) dflt_basis in
+         b_order ba = Nat.max (b_order (nth i (o_bases o1) dflt_basis)) (b_order (nth i (o_bases o2) dflt_basis)) /\
+         b_order bb = Nat.max (b_order (nth i (o_bases o1) dflt_basis)) (b_order (nth i (o_bases o2) dflt_basis)) /\
+         b_per1 ba = 0%nat /\
+         b_per1 bb = 0%nat /\
+         b_start ba = 0 /\
+         b_end ba = 1 /\
+         b_start bb = 0 /\
+         b_end bb = 1 /\
+         b_knots ba = b_knots bb /\
+         OrderProofs.lsorted (b_knots ba) /\
+         (forall v : R,
+          SplitCompose.mult (b_knots ba) v =
+          Nat.max
+            (rmult (b_knots (ReparamEndToEnd.rp_basis (nth i (o_bases o1) dflt_basis) 0 1))
+               (Nat.max (b_order (nth i (o_bases o1) dflt_basis)) (b_order (nth i (o_bases o2) dflt_basis)) -
+                b_order (nth i (o_bases o1) dflt_basis)) v)
+            (rmult (b_knots (ReparamEndToEnd.rp_basis (nth i (o_bases o2) dflt_basis) 0 1))
+               (Nat.max (b_order (nth i (o_bases o1) dflt_basis)) (b_order (nth i (o_bases o2) dflt_basis)) -
+                b_order (nth i (o_bases o2) dflt_basis)) v)) /\
+         wf_obj_R tol a /\
+         wf_obj_R tol b /\
+         length (o_bases a) = length (o_bases o1) /\
+         length (o_bases b) = length (o_bases o2) /\
+         (forall j : nat, j <> i -> nth j (o_bases a) dflt_basis = nth j (o_bases o1) dflt_basis) /\
+         (forall j : nat, j <> i -> nth j (o_bases b) dflt_basis = nth j (o_bases o2) dflt_basis) /\
+         o_dim a = Nat.max (o_dim o1) (o_dim o2) /\
+         o_dim b = Nat.max (o_dim o1) (o_dim o2) /\ o_rat a = o_rat o1 || o_rat o2 /\ o_rat b = o_rat o1 || o_rat o2.
+Proof. exact @identical_dir_knots. Qed.
+Print Assumptions C12_identical_dir_knots.
+
+Theorem C12_identical_dir_then_evaluate :
+  forall (tol : R) (o1 o2 : obj R) (i : nat),
+         identical_hyps tol o1 o2 i ->
+         forall a b : obj R,
+         identical_dir tol o1 o2 i = Ok (a, b) ->
+         forall ts : list R,
+         SplitCompose.dom_all tol o1 ts ->
+         (i < length ts)%nat ->
+         param_clear tol (nth i (o_bases o1) dflt_basis) (nth i (o_bases o2) dflt_basis) (nth i ts 0) ->
+         obj_eval tol a
+           (KnotInsert.upd ts i
+              ((nth i ts 0 - b_start (nth i (o_bases o1) dflt_basis)) /
+               (b_end (nth i (o_bases o1) dflt_basis) - b_start (nth i (o_bases o1) dflt_basis)))) =
+         res_map (pad (Nat.max (o_dim o1) (o_dim o2) - o_dim o1)) (obj_eval tol o1 ts).
+Proof. exact @identical_dir_eval. Qed.
+Print Assumptions C12_identical_dir_then_evaluate.
+
+Theorem C12_identical_dir_then_evaluate_second :
+  forall (tol : R) (o1 o2 : obj R) (i : nat),
+         identical_hyps tol o1 o2 i ->
+         forall a b : obj R,
+         identical_dir tol o1 o2 i = Ok (a, b) ->
+         forall ts : list R,
+         SplitCompose.dom_all tol o2 ts ->
+         (i < length ts)%nat ->
+         param_clear tol (nth i (o_bases o2) dflt_basis) (nth i (o_bases o1) dflt_basis) (nth i ts 0) ->
+         obj_eval tol b
+           (KnotInsert.upd ts i
+              ((nth i ts 0 - b_start (nth i (o_bases o2) dflt_basis)) /
+               (b_end (nth i (o_bases o2) dflt_basis) - b_start (nth i (o_bases o2) dflt_basis)))) =
+         res_map (pad (Nat.max (o_dim o1) (o_dim o2) - o_dim o2)) (obj_eval tol o2 ts).
+Proof. exact @identical_dir_eval2. Qed.
+Print Assumptions C12_identical_dir_then_evaluate_second.
+
+Theorem C12_identical_same_order_succeeds :
+  forall (tol : R) (o1 o2 : obj R) (i : nat),
+         identical_hyps tol o1 o2 i ->
+         b_order (nth i (o_bases o1) dflt_basis) = b_order (nth i (o_bases o2) dflt_basis) ->
+         exists a b : obj R, identical_dir tol o1 o2 i = Ok (a, b).
+Proof. exact @identical_dir_same_order_ok. Qed.
+Print Assumptions C12_identical_same_order_succeeds.
+
+Theorem C12_make_identical_knots :
+  forall (tol : R) (o1 o2 : obj R) (i : nat),
+         identical_hyps tol o1 o2 i ->
+         forall a b : obj R,
+         obj_make_identical tol o1 o2 (Some i) = Ok (a, b) ->
+         let ba := nth i (o_bases a) dflt_basis in
+         let bb := nth i (o_bases b) dflt_basis in
+         b_order ba = Nat.max (b_order (nth i (o_bases o1) dflt_basis)) (b_order (nth i (o_bases o2) dflt_basis)) /\
+         b_order bb = Nat.max (b_order (nth i (o_bases o1) dflt_basis)) (b_order (nth i (o_bases o2) dflt_basis)) /\
+         b_per1 ba = 0%nat /\
+         b_per1 bb = 0%nat /\
+         b_start ba = 0 /\
+         b_end ba = 1 /\
+         b_start bb = 0 /\
+         b_end bb = 1 /\
+         b_knots ba = b_knots bb /\
+         o_dim a = Nat.max (o_dim o1) (o_dim o2) /\ o_dim b = Nat.max (o_dim o1) (o_dim o2) /\ o_rat a = o_rat b.
+Proof. exact @make_identical_knots. Qed.
+Print Assumptions C12_make_identical_knots.
+
+Theorem C12_make_identical_then_evaluate :
+  forall (tol : R) (o1 o2 : obj R) (i : nat),
+         identical_hyps tol o1 o2 i ->
+         forall a b : obj R,
+         obj_make_identical tol o1 o2 (Some i) = Ok (a, b) ->
+         forall ts : list R,
+         SplitCompose.dom_all tol o1 ts ->
+         (i < length ts)%nat ->
+         param_clear tol (nth i (o_bases o1) dflt_basis) (nth i (o_bases o2) dflt_basis) (nth i ts 0) ->
+         obj_eval tol a
+           (KnotInsert.upd ts i
+              ((nth i ts 0 - b_start (nth i (o_bases o1) dflt_basis)) /
+               (b_end (nth i (o_bases o1) dflt_basis) - b_start (nth i (o_bases o1) dflt_basis)))) =
+         res_map (pad (Nat.max (o_dim o1) (o_dim o2) - o_dim o1)) (obj_eval tol o1 ts).
+Proof. exact @make_identical_eval. Qed.
+Print Assumptions C12_make_identical_then_evaluate.
+
+Theorem C12_hypotheses_satisfiable :
+  identical_hyps ex_tol ex_o1 ex_o2 0.
+Proof. exact @ex_hyps. Qed.
+Print Assumptions C12_hypotheses_satisfiable.
+
